@@ -137,6 +137,20 @@ impl GenericParamSet {
                 }
                 visit_path(self, i);
             }
+            fn visit_macro(&mut self, i: &'ast syn::Macro) {
+                // The arguments of a macro in type position (`Pair![T]`) are not parsed: any identifier in them counts.
+                fn any_ident(ts: proc_macro2::TokenStream, f: &impl Fn(&Ident) -> bool) -> bool {
+                    ts.into_iter().any(|tt| match tt {
+                        proc_macro2::TokenTree::Ident(i) => f(&i),
+                        proc_macro2::TokenTree::Group(g) => any_ident(g.stream(), f),
+                        _ => false,
+                    })
+                }
+                if any_ident(i.tokens.clone(), &|ident| self.generics.contains(ident)) {
+                    self.result = true;
+                }
+                syn::visit::visit_macro(self, i);
+            }
         }
         let mut visitor = Visitor {
             generics: self,
